@@ -128,6 +128,10 @@ def run_native(script_args, timeout=600):
     return p.returncode, p.stdout, p.stderr
 
 
+FALLBACK_REPLAY = dict([(p, dict(fn='replay_symbol_battery', prop=p)) for p in ('C01', 'C02', 'C03', 'C04', 'C05', 'C06', 'C07', 'C13', 'C14')] +
+                       [('C15', dict(fn='replay_purity'))])
+
+
 def replay_failure(prop, idx, fail):
     """writes the replay file and runs the native replay; returns (path, confirmed, detail)"""
     os.makedirs(REPLAY_DIR, exist_ok=True)
@@ -136,6 +140,12 @@ def replay_failure(prop, idx, fail):
                model=fail['model'], note=fail['note'], replay=fail.get('replay'))
     with open(path, 'w') as f:
         json.dump(rec, f, indent=1, default=repr)
+    if not fail.get('replay') and prop in FALLBACK_REPLAY:
+        # obligations without a replay of their own: the behavioural battery of the property
+        fail = dict(fail, replay=dict(FALLBACK_REPLAY[prop]))
+        rec['replay'] = fail['replay']
+        with open(path, 'w') as f:
+            json.dump(rec, f, indent=1, default=repr)
     if not fail.get('replay'):
         rec['native'] = dict(confirmed=None, detail='no native replay defined for this obligation')
     else:
@@ -148,6 +158,22 @@ def replay_failure(prop, idx, fail):
             rec['native'] = nat
         except Exception as ex:
             rec['native'] = dict(confirmed=None, detail='replay failed to run: %r' % (ex,))
+    if not rec['native'].get('confirmed') and prop in FALLBACK_REPLAY and (fail.get('replay') or {}).get('fn') != FALLBACK_REPLAY[prop]['fn']:
+        # second chance: the obligation's own replay found no failing input; the behavioural battery of the property is tried as well
+        try:
+            rec2 = dict(rec, replay=dict(FALLBACK_REPLAY[prop]))
+            rec2.pop('native', None)
+            p2 = path[:-5] + '-battery.json'
+            with open(p2, 'w') as f:
+                json.dump(rec2, f, indent=1, default=repr)
+            rc, out, err = run_native([os.path.join(VERIF, 'replay.py'), p2])
+            nat2 = json.loads(out.strip().splitlines()[-1])
+            os.unlink(p2)
+            if nat2.get('confirmed'):
+                rec['native_own_replay'] = rec['native']
+                rec['native'] = nat2
+        except Exception:
+            pass
     with open(path, 'w') as f:
         json.dump(rec, f, indent=1, default=repr)
     return path, rec['native'].get('confirmed'), rec['native'].get('detail', '')
